@@ -56,6 +56,9 @@ func Scratch(prefix string) string {
 	base := os.Getenv("VERIF_WORK")
 	if base == "" {
 		base = "/verif/.work"
+		if r := os.Getenv("VERIF_ROOT"); r != "" {
+			base = r + "/.work"
+		}
 	}
 	os.MkdirAll(filepath.Join(base, "tlc"), 0o755)
 	d, err := os.MkdirTemp(filepath.Join(base, "tlc"), prefix)
